@@ -1,4 +1,6 @@
 """C09 -- list and stat return exactly the device's directory entries and metadata."""
+import struct
+
 from vlib import gen, scen, wire
 
 PROP = "C09"
@@ -19,6 +21,9 @@ def gen_cases(tier, seed):
     n = 2000 if tier == "quick" else 24000
     for i in range(n):
         yield {"kind": "rand", "op": ("list", "stat")[(i // 2) % 2], "impl": ("sync", "async")[i % 2], "seed": "%d:%d" % (seed, i)}
+    # names and field values that look like protocol words (FAIL, OKAY, DONE, DENT, ...), with WRTE boundaries right behind the record headers / ids
+    for i in range(160 if tier == "quick" else 2000):
+        yield {"kind": "words", "op": ("list", "stat")[(i // 2) % 2], "impl": ("sync", "async")[i % 2], "seed": "%d:w%d" % (seed, i)}
     for i in range(8 if tier == "quick" else 60):
         yield {"kind": "cut", "op": ("list", "stat")[(i // 2) % 2], "impl": ("sync", "async")[i % 2], "seed": "%d:cut%d" % (seed, i), "max": 60 if tier == "quick" else 300}
 
@@ -87,6 +92,19 @@ def run_case(case):
         finally:
             sess.dispose()
 
+    if case["kind"] == "words":
+        words = [b"FAIL", b"OKAY", b"DONE", b"DENT", b"STAT", b"DATA", b"QUIT", b"SEND", b"RECV", b"LIST", b"CLSE", b"WRTE", b"OPEN", b"CNXN", b"AUTH", b"SYNC"]
+        vals = [struct.unpack("<I", w)[0] for w in words]
+        n = rng.choice([1, 2, 5])
+        entries = [(rng.choice(vals + [0o100644]), rng.choice(vals + [7]), rng.choice(vals + [9]), rng.choice(words) + rng.choice([b"", b"ED_tests.log", b"\x00\x00\x00\x00", b".txt", rng.choice(words)])) for _ in range(n)]
+        triple = tuple(rng.choice(vals) for _ in range(3))
+        dims["early_reply"] = rng.random() < 0.6         # the reply may start before the request is acknowledged
+        dims["noise"] = [x for x in dims["noise"] if x != "bg"]
+        sizes = [rng.choice([4, 8, 12, 16, 20, 24])]
+        out = one("list", sizes, entries, triple, "protocol words as names / field values, WRTEs of %d bytes, early reply %s" % (sizes[0], dims["early_reply"]))
+        stats["replies_made_of_protocol_words"] = 1
+        sig = "words|%s|%s|%d|%d|%s" % (op, case["impl"], n, sizes[0], dims["early_reply"])
+        return {"sig": sig, "violations": _dd(viol), "stats": stats, "sample": {"case": case, "entries": repr(entries)[:200], "triple": triple, "outcome": out.brief(80)} if case["seed"].endswith("w6") else None}
     if case["kind"] == "rand":
         n = rng.choice([0, 1, 2, 3, 10, 50, 200, 500]) if op == "list" else 0
         entries = entries_for(rng, n)
